@@ -7,6 +7,10 @@
 //!     M:i:j        merge treaps i and j                 A:i:k        split_at
 //!     B:i:c        split_by (elem < c)                  I:i:k:v:p[:ms]   insert_at
 //!     R:i:k        remove_at                            U:i:a:c / U:i:s:c   root_mut().modify(add c / set c)
+//!     Uf:i:a:c / Uf:i:s:c   the same modification attached through the PUBLIC FIELDS instead of the accessor:
+//!                    `t.root.as_mut().unwrap().item.modify(..)`;   Un:...  at node level: `t.root` is taken out, the raw
+//!                    Option<Box<TreapNode>> gets `node.item.modify(..)` (the only handle for users of TreapNode::split_at /
+//!                    merge) and becomes the `root` field of a new treap.  Same token, same observation as U.
 //!     V:i:k:j:k2:p[:ms]   move: `let mut it = treaps[i].remove_at(k); <ms>; treaps[j].insert_at(k2, it)` — the item
 //!                    OBJECT that remove_at returned is inserted (i == j allowed; skipped unless both are live; priority
 //!                    p as for I)
@@ -525,15 +529,36 @@ fn history<I: HItem>(toks: &[&str]) -> String {
                     }
                 }
             }
-            "U" => {
+            "U" | "Uf" | "Un" => {
                 let i = idx(1);
                 if i >= ts.len() {
                     "x".into()
                 } else {
                     let c: i64 = p(f[3]);
                     let m = if f[2] == "s" { Md::Set(c) } else { Md::Add(c) };
-                    if let Some(r) = ts[i].root_mut() {
-                        r.modify(m);
+                    match f[0] {
+                        // the accessor
+                        "U" => {
+                            if let Some(r) = ts[i].root_mut() {
+                                r.modify(m);
+                            }
+                        }
+                        // the public fields `Treap::root` / `TreapNode::item`, in place
+                        "Uf" => {
+                            if let Some(nd) = ts[i].root.as_mut() {
+                                nd.item.modify(m);
+                            }
+                        }
+                        // node level: the root is taken out of the treap and handled as a raw Option<Box<TreapNode>>
+                        // (what TreapNode::split_at / merge hand out; `node.item` is the only handle there is), then put back
+                        _ => {
+                            let mut raw: Option<Box<TreapNode<I>>> = ts[i].root.take();
+                            if let Some(nd) = raw.as_mut() {
+                                let nd: &mut TreapNode<I> = &mut **nd;
+                                nd.item.modify(m);
+                            }
+                            ts[i] = wrap(raw);
+                        }
                     }
                     "u".into()
                 }
